@@ -4,14 +4,14 @@
 From PV Require Import Engine EngineProofs.
 Open Scope string_scope.
 Notation RG := (list val -> option string -> option string -> st -> R).
-Notation RP := (string -> option (list val) -> option string -> option string -> st -> R).
+Notation RP := (string -> option (list string) -> option (list val) -> option string -> option string -> st -> R).
 
 (** own context: the child starts from [args] only, on a fresh call stack; afterwards the
     parent gets back its own context and stack, plus [out] *)
 Theorem C11_own_context : forall (rp : RP) s pa,
   get_arguments s = Ok pa -> pa_use_parent pa = false ->
   pype_step rp s =
-  (let '(o, child) := rp (pa_name pa) (pa_groups pa) (pa_success pa) (pa_failure pa)
+  (let '(o, child) := rp (pa_name pa) (pa_parse pa) (pa_groups pa) (pa_success pa) (pa_failure pa)
                          (child_start pa s) in
    let parent := back_in_parent s child in
    pype_guard pa
@@ -45,7 +45,7 @@ Print Assumptions C11_isolation.
 Theorem C11_shared_context : forall (rp : RP) s pa,
   get_arguments s = Ok pa -> pa_use_parent pa = true ->
   pype_step rp s =
-  pype_guard pa (rp (pa_name pa) (pa_groups pa) (pa_success pa) (pa_failure pa)
+  pype_guard pa (rp (pa_name pa) (pa_parse pa) (pa_groups pa) (pa_success pa) (pa_failure pa)
                     (match pa_args pa with
                      | Some ((_ :: _) as a) => set_ctx s (dict_update (ctx s) a)
                      | _ => s
@@ -66,15 +66,30 @@ Proof. exact pype_guard_signal. Qed.
 Print Assumptions C11_stop_passes.
 
 (** ... whereas StopPipeline ends only the child: its run reports success to the pype step *)
-Theorem C11_stoppipeline_ends_child : forall lib (rg : RG) name pl groups su fa s s1,
+Theorem C11_stoppipeline_ends_child : forall lib (rg : RG) (rfail : string -> st -> R) name pl groups su fa s s1,
   find (fun p => String.eqb (fst p) name) lib = Some pl ->
   rg (effective_groups groups)
      (if defaulted groups su fa then Some "on_success" else su)
      (if defaulted groups su fa then Some "on_failure" else fa)
      (set_stack s (name :: stack s)) = (ORaise (RSig SStopPipeline), s1) ->
-  load_and_run lib rg name groups su fa s = (OOk, set_stack s1 (tl (stack s1))).
+  load_and_run lib rg rfail name None groups su fa s = (OOk, set_stack s1 (tl (stack s1))).
 Proof. exact load_and_run_stoppipeline. Qed.
 Print Assumptions C11_stoppipeline_ends_child.
+
+(** a child whose context parser fails: its failure group runs first (once, on the context as
+    it was), and the parser's own error is what the pype step then receives *)
+Theorem C11_child_parser_failure : forall (rg : RG) (rfail : string -> st -> R)
+    parser parse groups su fa s n m e s0 fg,
+  prepare_context parser parse s = (ORaise (RExn n m e), s0) ->
+  (if defaulted groups su fa then Some "on_failure" else fa) = Some fg -> fg <> "" ->
+  run_pipeline_inner rg rfail parser parse groups su fa s =
+  match rfail fg s0 with
+  | (ORaise (RSig SStopStepGroup), s1) | (OOk, s1) => (ORaise (RExn n m e), s1)
+  | (ORaise (RSig SStopPipeline), s1) => (OOk, s1)
+  | r => r
+  end.
+Proof. exact run_pipeline_inner_parser_fails. Qed.
+Print Assumptions C11_child_parser_failure.
 
 (** after the child ended IN ANY WAY the parent is again the current pipeline.
     own context: directly *)
@@ -87,7 +102,7 @@ Print Assumptions C11_stack_own_context.
 (** in general (shared context included), for every library, fuel, outcome: push / run /
     pop-in-finally leaves the call stack balanced — by induction on fuel over the whole
     interpreter ([ext] also says trace and clock only grow) *)
-Theorem C11_stack_balanced : forall fuel lib name gs su fa, good (run_pipeline fuel lib name gs su fa).
+Theorem C11_stack_balanced : forall fuel lib name parse gs su fa, good (run_pipeline fuel lib name parse gs su fa).
 Proof. exact good_run_pipeline. Qed.
 Print Assumptions C11_stack_balanced.
 
